@@ -144,7 +144,7 @@ Proof.
       destruct (Hw w' wr' b' Hw' Hb') as (A & B & C & D).
       rewrite written_by_app, written_by_other, app_nil_r by exact Hne.
       unfold bump. destruct (Nat.eqb_spec w' w); [subst; contradiction|].
-      repeat split; assumption.
+      split; [exact A|]. split; [exact B|]. split; [exact C|exact D].
 Qed.
 
 Fixpoint count_steps (sched : list nat) : nat -> nat :=
